@@ -334,6 +334,61 @@ def rule_k4_k5(repo, col):
                construct="def update_weights: weight pairs", function="ConstraintAD.update_weights")
 
 
+def rule_k6(repo, col):
+    """the translation memo of _break_cycles is keyed by the node only, but the translation depends on is_evidence (evidence values are substituted only when it is
+    False): passes with different is_evidence values must not share one table"""
+    f = repo.func("problog.cycles", "_break_cycles")
+    m = f.module
+    if "is_evidence" not in f.params or "translation" not in f.params:
+        raise AnalysisError("_break_cycles: parameters is_evidence / translation not found")
+    depends = any(isinstance(n, ast.If) and "is_evidence" in norm(n.test) for n in ast.walk(f.node))
+    keyed = any(isinstance(n, ast.Subscript) and norm(n.value) == "translation" and "is_evidence" in norm(n.slice) for n in ast.walk(f.node))
+    if not depends or keyed:
+        col.ok("K6", m, f.node, "the translation memo %s" % ("is keyed by is_evidence" if keyed else "does not depend on is_evidence"), function="_break_cycles")
+        return
+    g = repo.func("problog.cycles", "break_cycles")
+    ti = f.params.index("translation")
+    events = []
+    for n in ast.walk(g.node):
+        if isinstance(n, ast.Call) and dotted(n.func) == "_break_cycles":
+            kws = {k.arg: k.value for k in n.keywords}
+            tab = norm(n.args[ti]) if len(n.args) > ti else norm(kws["translation"]) if "translation" in kws else None
+            ie_i = f.params.index("is_evidence")
+            ie = n.args[ie_i] if len(n.args) > ie_i else kws.get("is_evidence")
+            if ie is None:
+                flag = False
+            elif isinstance(ie, ast.Constant):
+                flag = bool(ie.value)
+            else:
+                raise AnalysisError("break_cycles: is_evidence argument not constant: %s" % norm(ie))
+            if tab is None:
+                raise AnalysisError("break_cycles: translation argument not found")
+            events.append((n.lineno, "call", tab, flag, n))
+        elif isinstance(n, ast.Assign) and isinstance(n.targets[0], ast.Name):
+            v = n.value
+            fresh = (isinstance(v, ast.Call) and dotted(v.func) in ("defaultdict", "dict", "collections.defaultdict")) or isinstance(v, ast.Dict)
+            events.append((n.lineno, "fresh" if fresh else "assign", n.targets[0].id, None, n))
+    events.sort(key=lambda e_: e_[0])
+    calls = [e_ for e_ in events if e_[1] == "call"]
+    if len(calls) < 2:
+        raise AnalysisError("break_cycles: the query and evidence passes were not found")
+    n_pairs = 0
+    for i, a in enumerate(calls):
+        for b in calls[i + 1:]:
+            if a[2] != b[2] or a[3] == b[3]:
+                continue
+            n_pairs += 1
+            between = [e_ for e_ in events if a[0] < e_[0] < b[0] and e_[2] == a[2] and e_[1] in ("fresh", "assign")]
+            if any(e_[1] == "assign" for e_ in between):
+                raise AnalysisError("break_cycles: table %s is rebound to something that is not a fresh container" % a[2])
+            col.decide("K6", g.module, b[4], bool(between), "the %s pass gets a fresh translation table" % ("evidence" if b[3] else "query"),
+                       "break_cycles translates the %s nodes (is_evidence=%s) with the table `%s` already filled by the pass with is_evidence=%s: the memo is keyed by the node only, but the "
+                       "query pass substitutes propagated evidence values into its nodes, so the evidence node is rebuilt from nodes in which the evidence is already assumed - the "
+                       "constraint degenerates (e.g. to TRUE) and the condition is lost" % ("evidence" if b[3] else "query", b[3], a[2], a[3]),
+                       construct="break_cycles: translation table shared between is_evidence=%s and is_evidence=%s" % (a[3], b[3]), function="break_cycles")
+    col.floor("K6.pass_pairs", n_pairs, 1)
+
+
 def run(repo, col):
     col.rule("K1", "clause templates of Clark's completion")
     col.rule("K2", "weights, atoms, constraints and names are carried over")
@@ -344,3 +399,5 @@ def run(repo, col):
     rule_k3(repo, col)
     rule_k3b(repo, col)
     rule_k4_k5(repo, col)
+    col.rule("K6", "translation memo not shared between passes it is not keyed for")
+    rule_k6(repo, col)
